@@ -150,6 +150,7 @@ class _Collector(ast.NodeVisitor):
         self.chains = []        # (lineno, [root, attr, ...], guarded)
         self.syntax = []        # (lineno, what)
         self._guard = 0
+        self._hasattr = set()
         self._func = 0
         self._consumed = set()
 
@@ -185,13 +186,23 @@ class _Collector(ast.NodeVisitor):
 
     def visit_If(self, node):
         # `if hasattr(mod, "x"):` / `if mod.__available__:` style guards
+        # (a hasattr test guards only references to the very name it tests: `if hasattr(np,
+        # "trapezoid"): np.trapezoid`; `if hasattr(obj, "build"):` says nothing about libraries)
         src = ast.dump(node.test)
-        guarded = "hasattr" in src or "__available__" in src
+        guarded = "__available__" in src
+        pairs = set()
+        for sub in ast.walk(node.test):
+            if isinstance(sub, ast.Call) and getattr(sub.func, "id", None) == "hasattr" and len(sub.args) == 2 \
+                    and isinstance(sub.args[0], ast.Name) and isinstance(sub.args[1], ast.Constant):
+                pairs.add((sub.args[0].id, sub.args[1].value))
         self.visit(node.test)
         if guarded:
             self._guard += 1
+        added = pairs - self._hasattr
+        self._hasattr |= added
         for n in node.body:
             self.visit(n)
+        self._hasattr -= added
         if guarded:
             self._guard -= 1
         for n in node.orelse:
@@ -234,7 +245,9 @@ class _Collector(ast.NodeVisitor):
             cur = cur.value
         if isinstance(cur, ast.Name):
             chain.append(cur.id)
-            self.chains.append((node.lineno, list(reversed(chain)), self._guard > 0))
+            chain = list(reversed(chain))
+            self.chains.append((node.lineno, chain, self._guard > 0 or
+                                (len(chain) > 1 and (chain[0], chain[1]) in self._hasattr)))
         else:
             self.visit(cur)
 
